@@ -93,6 +93,8 @@ pub struct TypeSpec {
     /// a struct has exactly one entry
     pub variants: Vec<VariantSpec>,
     pub style: KeyStyle,
+    /// extra shared argument of the derive_ex list (e.g. an explicit `bound(..)` without `..`)
+    pub shared_arg: Option<&'static str>,
 }
 
 pub const VNAMES: [&str; 5] = ["A", "B", "C", "D", "E"];
@@ -305,6 +307,7 @@ fn ref_feed_code(ts: &TypeSpec) -> String {
 pub fn expander_accepts(entry: Entry, derived: &[Tr], item: &str) -> Result<(), String> {
     let traits = names(derived);
     let (_, al) = expand::expand_aligned(entry, &traits.join(", "), item, &traits)?;
+    // (an explicit shared bound(..) does not influence acceptance)
     match al {
         Aligned::Whole(m) => Err(format!("whole derivation failed: {m}")),
         Aligned::PerTrait(slots) => {
@@ -321,7 +324,10 @@ pub fn expander_accepts(entry: Entry, derived: &[Tr], item: &str) -> Result<(), 
 /// The generated module body for one case.
 pub fn program(ts: &TypeSpec, derived: &[Tr], entry: Entry) -> String {
     let item = ts.item();
-    let list = names(derived).join(", ");
+    let list = match ts.shared_arg {
+        Some(a) => format!("{}, {}", names(derived).join(", "), a),
+        None => names(derived).join(", "),
+    };
     let head = match entry {
         Entry::Attr => format!("#[derive_ex({list})]"),
         Entry::Derive => format!("#[derive(Ex)]\n#[derive_ex({list})]"),
